@@ -173,6 +173,9 @@ impl Decimal {
     #[must_use]
     #[inline(always)]
     pub const fn magnitude(self) -> i8 {
+        if self.coeff == 0 {
+            return 0;
+        }
         i128_magnitude(self.coeff) as i8 - self.n_frac_digits as i8
     }
 
